@@ -268,7 +268,32 @@ Definition judge_k4 (k : k4case) : list Z :=
      bit (negb cnt) 32)%Z; Z.of_nat (length ps); (if Qle_bool L 0 then 0 else Qfloor (worst * 1000 / L))%Z ].
 
 (* ============================================================================================== *)
-Inductive case05 := K1 (h : Q) (c : k1case) | K2 (c : k2case) | K3 (c : k3case) | K4 (c : k4case).
+(** * K5: Path.Dash on a mixed path — one or two Bézier segments followed by a long line. The arc length consumed by the
+      curves must be carried over to the line: every pattern boundary that falls on the line must be cut at its prescribed
+      arc length minus the (enclosed) length of the curves, and the line must not be cut anywhere else. *)
+Record k5case := mkK5 { h_off : Q; h_d : list Q; h_curves : list (list qpt); h_line : Q; h_len : Q;
+                        h_cuts : list Q; h_panic : bool }.
+
+(** flags: 1 PROP a pattern boundary on the line has no cut at its prescribed position (enclosure of the curves' length widened
+    by 1 % of the path length), 2 PROP the line is cut at a position no pattern boundary prescribes, 4 tie: Go's Length outside
+    the enclosure +- 1 %, 32 PROP panic. Output [flags; #cuts on the line; #pattern boundaries on the line] *)
+Definition judge_k5 (c : k5case) : list Z :=
+  if h_panic c then [32%Z; 0%Z; 0%Z] else
+  let lo := fold_right (fun cv a => len_lo 30 8 cv + a) 0 (h_curves c) in
+  let hi := fold_right (fun cv a => len_hi 30 8 cv + a) 0 (h_curves c) in
+  let L := h_len c in
+  let tol := L * (1 # 100) + (1 # 1000000) in
+  let lenok := Qle_bool (lo + h_line c - tol) L && Qle_bool L (hi + h_line c + tol) in
+  let bnds := flat_map (fun ab => [fst ab; snd ab]) (drawn_intervals (h_d c) (h_off c) L) in
+  let online := filter (fun x => Qltb (hi + tol) x && Qltb x (L - tol)) bnds in
+  let inner := filter (fun g => Qltb tol g && Qltb g (h_line c - tol)) (h_cuts c) in
+  let near x g := Qle_bool (x - hi - tol) g && Qle_bool g (x - lo + tol) in
+  let missing := negb (forallb (fun x => existsb (near x) (h_cuts c)) online) in
+  let extra := negb (forallb (fun g => existsb (fun x => near x g) bnds) inner) in
+  [ (bit missing 1 + bit extra 2 + bit (negb lenok) 4)%Z; Z.of_nat (length (h_cuts c)); Z.of_nat (length online) ].
+
+(* ============================================================================================== *)
+Inductive case05 := K1 (h : Q) (c : k1case) | K2 (c : k2case) | K3 (c : k3case) | K4 (c : k4case) | K5 (c : k5case).
 
 Definition judge (c : case05) : list Z :=
-  match c with K1 h k => judge_k1 h k | K2 k => judge_k2 k | K3 k => judge_k3 k | K4 k => judge_k4 k end.
+  match c with K1 h k => judge_k1 h k | K2 k => judge_k2 k | K3 k => judge_k3 k | K4 k => judge_k4 k | K5 k => judge_k5 k end.
